@@ -21,8 +21,8 @@ TAKES_CI = {'modularity_finetune_und', 'modularity_finetune_dir', 'modularity_fi
             'modularity_probtune_und_sign'}
 HIER = {'modularity_louvain_und', 'modularity_louvain_dir'}
 GIVEN = ['modularity_und', 'modularity_dir', 'modularity_und_sign']
-C02_PREDS = {'labels-1..k', 'q-equals-Q', 'given-partition-q', 'given-partition-labels', 'raises'}
-C07_PREDS = {'not-worse-than-start', 'hierarchy-increasing', 'feedback-not-lower'}
+C02_PREDS = {'labels-1..k', 'q-equals-Q', 'given-partition-q', 'given-partition-labels', 'raises', 'result-depends-on-history'}
+C07_PREDS = {'not-worse-than-start', 'hierarchy-increasing', 'feedback-not-lower', 'result-depends-on-history'}
 
 
 # ------------------------------------------------------------------ exact oracles (definitions)
@@ -328,6 +328,8 @@ def cond_of(case, level=None, nlevels=None):
 
 def run_case(case):
     """-> dict(status, levels=[(ci,q)], plain=(ci,q)|None, draws, fails=[(pred, info, cond)], Qs, exc)"""
+    if case.get('probe'):
+        return run_probe(case)
     bct = import_bct()
     r = case['routine']; W = case['W']; n = len(W)
     res = {'status': 'ok', 'fails': [], 'levels': [], 'draws': [], 'extra': {}}
@@ -882,6 +884,240 @@ def _rg_canon(v):
     return [seen.setdefault(x, len(seen)) for x in v]
 
 
+# ------------------------------------------------------------------ object-reuse and call-history probes
+
+def _direct(bct, case, A, ci, seed):
+    """the routine of `case` on the given array objects (no watchdog of its own: it runs inside common.call) -> (labels, q)"""
+    r = case['routine']; g = float(Fr(case['gamma'])); f = getattr(bct, r)
+    if r == 'community_louvain':
+        o = case['opt']
+        B = o if o != 'custom' else [[float(Fr(x)) for x in row] for row in case['B']]
+        out = f(A, gamma=g, ci=ci, B=B, seed=seed)
+    elif r in ('modularity_louvain_und', 'modularity_louvain_dir'):
+        out = f(A, gamma=g, seed=seed)
+    elif r == 'modularity_louvain_und_sign':
+        out = f(A, gamma=g, qtype=case['opt'], seed=seed)
+    elif r in ('modularity_finetune_und', 'modularity_finetune_dir'):
+        out = f(A, ci=ci, gamma=g, seed=seed)
+    elif r == 'modularity_finetune_und_sign':
+        out = f(A, qtype=case['opt'], gamma=g, ci=ci, seed=seed)
+    elif r == 'modularity_probtune_und_sign':
+        out = f(A, qtype=case['opt'], gamma=g, ci=ci, p=0.25, seed=seed)
+    elif r in ('modularity_und', 'modularity_dir'):
+        out = f(A, gamma=g, kci=ci)
+    else:
+        out = f(A, ci, qtype=case['opt'])
+    return [int(x) for x in np.asarray(out[0]).tolist()], float(out[1])
+
+
+def _apply_mutation(bct, mut, A, ci, returned):
+    k = mut['kind']
+    if k == 'threshold':
+        bct.threshold_absolute(A, mut['thr'], copy=False)          # the library's own in-place edit
+    elif k == 'reweight':
+        for (i, j) in mut['cells']:
+            A[i, j] = mut['w']
+    elif k == 'flip':
+        for (i, j) in mut['cells']:
+            A[i, j] = -A[i, j]
+    elif k == 'ci':
+        ci[mut['u']] = mut['label']
+    elif k == 'edit-returned':
+        if returned is not None:
+            returned[mut['u'] % len(returned)] = 99              # the caller scribbles on the array it got back
+    elif k == 'none':
+        pass
+
+
+def run_probe(case):
+    """common.reuse_probe on one routine: call, mutate the SAME objects in place, call again, compare with a call on fresh
+    copies; in addition the second call itself is judged by the C02 / C07 predicates on the mutated network."""
+    bct = import_bct()
+    r = case['routine']; n = len(case['W'])
+    res = {'status': 'ok', 'fails': [], 'levels': [], 'draws': [], 'extra': {}, 'probe': True}
+    F = res['fails']
+    cond = cond_of(case); cond['probe'] = case['mut']['kind'] + ('+' + case['between']['routine'] if case.get('between') else '')
+    seeded = r not in GIVEN
+    if case['mut']['kind'] == 'sequence':
+        # f(A) ; g(B) on another input of the same size (other routine / non-default option) ; f(A) again: first and third must agree
+        A = np.array(case['W'], dtype=float); ci = None if case.get('ci0') is None else np.array(case['ci0'], dtype=int)
+        oth = case['mut']['other']
+        B_ = np.array(oth['W'], dtype=float)
+        r1 = call(_direct, bct, case, A.copy(), None if ci is None else ci.copy(), case['seed'] if seeded else None, t=6.0, retry=10)
+        call(_direct, bct, oth, B_, None if oth.get('ci0') is None else np.array(oth['ci0'], dtype=int), oth['seed'] if oth['routine'] not in GIVEN else None, t=6.0, retry=10)
+        r3 = call(_direct, bct, case, A.copy(), None if ci is None else ci.copy(), case['seed'] if seeded else None, t=6.0, retry=10)
+        if r1[0] == 'ok' and r3[0] == 'ok' and not same_result(r1[1], r3[1]):
+            F.append(('result-depends-on-history', {'first': str(r1[1])[:300], 'after_other_call': str(r3[1])[:300], 'other': oth}, cond))
+        return res
+    A = np.array(case['W'], dtype=float)
+    ci = None if case.get('ci0') is None else np.array(case['ci0'], dtype=int)
+    if case.get('start_opt'):
+        # start = a good partition of the network as it will be after the in-place edit (found on a private copy)
+        A2 = A.copy(); _apply_mutation(bct, case['mut'], A2, None, None)
+        st0 = call(bct.community_louvain, A2, gamma=float(Fr(case['gamma'])), seed=case['seed'] % 1000, t=6.0, retry=10)
+        if st0[0] != 'ok':
+            res['status'] = 'start-' + st0[0]
+            return res
+        ci = np.asarray(st0[1][0]).astype(int)
+    calls = []
+
+    def fn(A_, ci_, seed=None):
+        if case.get('between'):
+            b = case['between']
+            try:
+                _direct(bct, dict(case, routine=b['routine'], opt=b.get('opt')), A_, None, seed)      # g(A) shares the argument object
+            except Exception:  # noqa
+                pass
+        out = _direct(bct, case, A_, ci_, seed)
+        calls.append((A_.copy(), None if ci_ is None else ci_.copy(), out))
+        return out
+
+    def mutate(args):
+        _apply_mutation(bct, case['mut'], args[0], args[1], None)
+        if case['mut']['kind'] == 'edit-returned' and calls:
+            calls[0][2][0][case['mut']['u'] % n] = 99
+
+    d = reuse_probe(fn, [A, ci], mutate, t=8.0, tol=0.0, seed=(case['seed'] if seeded else None))
+    if d is not None:
+        F.append(('result-depends-on-history', dict(d, mutation=case['mut'], between=case.get('between')), cond))
+    # the second call (same objects, after the in-place edit) judged on the network it was really given
+    if len(calls) >= 2:
+        W2, c2, (lab, q) = calls[1]
+        cm = dict(case, W=[[Fr(float(x)) for x in row] for row in W2.tolist()], ci0=None if c2 is None else [int(x) for x in c2.tolist()])
+        cm.pop('scale', None)
+        ok_dom = (np.any(W2 != 0) if r in SIGN else W2.sum() > 0) and (r not in UND | SIGN or np.array_equal(W2, W2.T))
+        if ok_dom:
+            if r in GIVEN:
+                if not close(q, true_q(cm, cm['ci0'])):
+                    F.append(('given-partition-q', {'q': q, 'Q': float(true_q(cm, cm['ci0'])), 'second_call': True, 'mutation': case['mut']}, cond))
+            elif not labels_ok(lab, n):
+                F.append(('labels-1..k', {'ci': lab, 'second_call': True, 'mutation': case['mut']}, cond))
+            else:
+                Q = true_q(cm, lab)
+                if not close(q, Q) and r != 'modularity_louvain_dir':
+                    F.append(('q-equals-Q', {'q': q, 'Q': float(Q), 'ci': lab, 'second_call': True, 'mutation': case['mut'], 'level': 1}, dict(cond, level_ge2=False)))
+                if r in OPTIMISERS and r != 'modularity_louvain_dir':
+                    start = cm['ci0'] if cm['ci0'] is not None else list(range(1, n + 1))
+                    Q0 = true_q(cm, start)
+                    if Q < Q0 - Fr(1, 10 ** 9) * max(1, abs(Q0)):
+                        F.append(('not-worse-than-start', {'Q_start': float(Q0), 'Q_returned': float(Q), 'start': start, 'returned': lab,
+                                                           'second_call_after': case['mut'], 'W_second_call': W2.tolist()}, dict(cond, levels_ge2=False)))
+    return res
+
+
+def gen_probes(rs, tier):
+    """object-reuse probes for every routine of C02/C07 (start partition supplied where the routine takes one)"""
+    big = tier == 'thorough'
+    out = []
+    variants = []
+    for r in OPTIMISERS + ['modularity_probtune_und_sign'] + GIVEN:
+        if r in SIGN:
+            variants += [(r, q) for q in QTYPES]
+        elif r == 'community_louvain':
+            variants += [(r, o) for o in ('modularity', 'negative_sym', 'negative_asym', 'potts')]
+        else:
+            variants.append((r, None))
+    per = 6 if not big else 45
+    for (r, opt) in variants:
+        for t_ in range(per):
+            n = int(rs.randint(5, 11)); wmax = int(rs.choice([3, 5])); dens = float(rs.choice([.4, .6, .8]))
+            signed = r in SIGN or opt in ('negative_sym', 'negative_asym')
+            if signed:
+                A = g_sign(rs, n, dens, wmax, mode=int(rs.choice([2, 3, 4])))
+            elif opt == 'potts':
+                A = g_und(rs, n, dens, 1)
+            elif r in UND or (r == 'community_louvain' and rs.rand() < .5):
+                A = g_und(rs, n, dens, wmax)
+            else:
+                A = g_dir(rs, n, dens, wmax)
+            if (A[A > 0].sum() <= 0) if signed else (A.sum() <= 0):
+                continue
+            sym = r in UND or r in SIGN or np.array_equal(A, A.T)
+            ci0 = None
+            if r in TAKES_CI or r in GIVEN:
+                k = int(rs.randint(2, n))
+                ci0 = [int(x) + 1 for x in _rg_canon(rs.randint(0, k, size=n).tolist())]
+            nz = [(i, j) for i in range(n) for j in range(n) if A[i, j] != 0 and i != j]
+            if not nz:
+                continue
+            i, j = nz[rs.randint(len(nz))]
+            cells = [(i, j), (j, i)] if sym else [(i, j)]
+            kinds = ['reweight', 'edit-returned']
+            if opt != 'potts':
+                pos = sorted(set(A[A > 0].tolist()))
+                if len(pos) >= 2:
+                    kinds.append('threshold')
+            if signed:
+                kinds.append('flip')
+            if ci0 is not None:
+                kinds.append('ci')
+            kind = kinds[t_ % len(kinds)] if t_ < len(kinds) else str(rs.choice(kinds))
+            if kind == 'threshold':
+                mut = {'kind': kind, 'thr': float(pos[len(pos) // 2])}
+            elif kind == 'reweight':
+                mut = {'kind': kind, 'cells': cells, 'w': float(0 if (opt == 'potts' or rs.rand() < .4) else abs(A[i, j]) + 2)}
+            elif kind == 'flip':
+                mut = {'kind': kind, 'cells': cells}
+            elif kind == 'ci':
+                u = int(rs.randint(n)); mut = {'kind': kind, 'u': u, 'label': int(ci0[(u + 1) % n]) if ci0[(u + 1) % n] != ci0[u] else int(max(ci0) + 1)}
+            else:
+                mut = {'kind': kind, 'u': int(rs.randint(n))}
+            c = {'probe': True, 'routine': r, 'opt': opt, 'W': to_list(A), 'gamma': GAMMAS[rs.randint(3)] if r != 'modularity_und_sign' else '1',
+                 'ci0': ci0, 'seed': int(rs.randint(2 ** 31)), 'mut': mut}
+            # pairs of routines sharing the argument object: g(A) runs between the two f(A) calls
+            if t_ % 3 == 2 and r in OPTIMISERS:
+                c['between'] = ({'routine': 'community_louvain', 'opt': 'negative_sym' if signed else 'modularity'} if r != 'community_louvain'
+                                else {'routine': 'modularity_louvain_und_sign', 'opt': 'sta'} if signed else {'routine': 'modularity_louvain_dir'})
+            out.append(c)
+    # planted re-analysis: a network whose light edges favour one partition and whose heavy edges another; the caller
+    # thresholds it in place and re-analyses it from the partition that is optimal for the thresholded network - a routine that
+    # still looks at anything computed for the old network walks away from that start and ends below it
+    for (r, opt) in [('community_louvain', 'modularity'), ('modularity_finetune_und', None), ('modularity_finetune_dir', None)]:
+        for _ in range(10 if not big else 80):
+            k = int(rs.randint(3, 7)); n = 2 * k
+            perm = rs.permutation(n)
+            A = np.zeros((n, n))
+            for a_ in range(k):                      # light complete graphs on the "first" and on the "second" nodes of the pairs
+                for b_ in range(a_ + 1, k):
+                    for off in (0, 1):
+                        A[perm[2 * a_ + off], perm[2 * b_ + off]] = A[perm[2 * b_ + off], perm[2 * a_ + off]] = 2
+            ci0 = [0] * n
+            for a_ in range(k):                      # heavy pairs
+                A[perm[2 * a_], perm[2 * a_ + 1]] = A[perm[2 * a_ + 1], perm[2 * a_]] = 3 + int(rs.randint(3))
+                ci0[perm[2 * a_]] = ci0[perm[2 * a_ + 1]] = a_ + 1
+            out.append({'probe': True, 'routine': r, 'opt': opt, 'W': to_list(A), 'gamma': '1', 'ci0': ci0, 'seed': int(rs.randint(2 ** 31)),
+                        'mut': {'kind': 'threshold', 'thr': 3.0}})
+    # the same with random networks: the start is what community_louvain finds on a thresholded *copy* (near-optimal for the network
+    # the second call is given), resolved inside run_probe
+    for (r, opt) in [('community_louvain', 'modularity'), ('modularity_finetune_und', None), ('modularity_finetune_dir', None)]:
+        for _ in range(16 if not big else 120):
+            n = int(rs.randint(8, 15))
+            A = g_und(rs, n, float(rs.choice([.5, .7, .9])), 5) if (r in UND or rs.rand() < .6) else g_dir(rs, n, float(rs.choice([.5, .7])), 5)
+            thr = float(rs.choice([3, 4]))
+            if (A * (A >= thr)).sum() <= 0:
+                continue
+            out.append({'probe': True, 'routine': r, 'opt': opt, 'W': to_list(A), 'gamma': GAMMAS[rs.randint(3)], 'ci0': [1] * n,
+                        'seed': int(rs.randint(2 ** 31)), 'mut': {'kind': 'threshold', 'thr': thr}, 'start_opt': True})
+    # explicit short sequences f ; g ; f on same-size inputs (other routine or an option away from its default)
+    for _ in range(24 if not big else 240):
+        r, opt = variants[rs.randint(len(variants))]
+        r2, opt2 = variants[rs.randint(len(variants))]
+        n = int(rs.randint(5, 10))
+
+        def mk(r_, o_):
+            signed = r_ in SIGN or o_ in ('negative_sym', 'negative_asym')
+            A = g_sign(rs, n, .6, 3, mode=3) if signed else (g_und(rs, n, .6, 1 if o_ == 'potts' else 3) if (r_ in UND or o_ == 'potts') else g_dir(rs, n, .6, 3))
+            ci0 = [int(x) + 1 for x in _rg_canon(rs.randint(0, 3, size=n).tolist())] if (r_ in TAKES_CI or r_ in GIVEN) else None
+            return {'routine': r_, 'opt': o_, 'W': to_list(A), 'gamma': GAMMAS[rs.randint(3)] if r_ != 'modularity_und_sign' else '1', 'ci0': ci0,
+                    'seed': int(rs.randint(2 ** 31))}
+        a, b = mk(r, opt), mk(r2, opt2)
+        if (np.array(a['W']) > 0).sum() == 0 or (np.array(b['W']) > 0).sum() == 0:
+            continue
+        a.update({'probe': True, 'mut': {'kind': 'sequence', 'other': b}})
+        out.append(a)
+    return out
+
+
 # ------------------------------------------------------------------ the check shared by C02 and C07
 
 def _same_partition(a, b):
@@ -938,7 +1174,9 @@ def run_check(ck, preds):
             cases = [b['detail']['case'] for b in rp.get('no_longer_checks', [])
                      if isinstance(b.get('detail'), dict) and isinstance(b['detail'].get('case'), dict)] or gen_cases(ck.rs, ck.tier)
     else:
-        cases = gen_cases(ck.rs, ck.tier)
+        cases = gen_cases(ck.rs, ck.tier) + gen_probes(ck.rs, ck.tier)
+        # every worker must see routines, options and sizes interleaved (hidden state carried between calls only shows then)
+        cases = [cases[i] for i in ck.rs.permutation(len(cases))]
     results = pmap(run_case, cases)
     cases = [r.get('case', c) for c, r in zip(cases, results)]     # cross-routine cases now carry their resolved start
     qlines, qidx, rlines, ridx, slines, sidx = [], [], [], [], [], []
@@ -949,6 +1187,14 @@ def run_check(ck, preds):
         ck.count('routine:' + rt); ck.count('status:' + r['status']); ck.count('n=%d' % len(c['W']))
         if c.get('malformed'):
             ck.count('malformed:' + c['malformed'] + ':' + r['status'])
+            continue
+        if c.get('probe'):
+            ck.count('reuse_probes'); ck.count('probe:' + c['mut']['kind'] + ('+between' if c.get('between') else ''))
+            ck.case(nontrivial_key=digest(['probe', c['routine'], c.get('opt'), c['W'], c['mut'], c['seed']]))
+            for pred, info, cond in r['fails']:
+                if pred in preds:
+                    d = {'case': c}; d.update(info)
+                    ck.violation(c['routine'], pred, d, cond)
             continue
         # every watchdog hit on an in-domain input is counted (main call, plain call, feedback call, start of a cross case)
         nt = int(r['status'] in ('timeout', 'start-timeout')) + r['extra'].get('plain_timeout', 0) + r['extra'].get('feedback_timeout', 0)
